@@ -1970,6 +1970,11 @@ class GMod(G):
                     main.append(("launch", ("call", ("var", "bgslow"), [("num", float(self.i(1, 3)))])))
                 else:
                     main.append(("launch", ("call", ("var", "bg"), [("num", float(j))])))
+        if self.chance(12) and mods:
+            # an import that selects no symbol at all still is an import: the module is loaded (its body runs, once)
+            name, _s, _e, _p = self.pick(mods)
+            main.append(("import", ["self"] + self.paths[name], ("syms", [])))
+            main.append(("print", ("str", "after empty selection")))
         # the library modules of the same names, imported before or after the project ones
         std_pending = [("import", ["std", n if n != "std" else "math"], ("whole", "std_" + n)) for n in self.used_std if self.chance(70)]
         if std_pending and self.chance(50):
